@@ -22,3 +22,5 @@ open UtilModel UtilModel.CCall
 #print axioms CCall.C17_obs
 #print axioms UtilModel.C17_accepted
 #print axioms UtilModel.acceptsH_sound
+#print axioms UtilModel.complete_ccall
+#print axioms UtilModel.reject_sound_ccall
